@@ -32,7 +32,7 @@ CONSTANTS Accts,                 \* account ids
           AsCoded
 
 Kinds == {"call", "callcode", "delegate", "static", "create"}
-FailModes == {"revert", "fault", "codestore"}
+FailModes == {"revert", "fault", "codestore", "oversize"}   \* oversize: a creation returns more code than MaxCodeSize
 
 VARIABLES stor, bal, live,       \* journalled account state: storage slot, balance, existence
           logs,                  \* log list of the state object: sequence of <<tx, id>>
@@ -149,7 +149,7 @@ ExitOk == /\ phase = "run" /\ frames # <<>>
 (* a frame ends with an error: undo the journal down to the frame's snapshot *)
 FailBody(mode, toks, dm) ==
   /\ phase = "run" /\ frames # <<>>
-  /\ (mode = "codestore" => Top.kind = "create")
+  /\ (mode \in {"codestore", "oversize"} => Top.kind = "create")
   /\ LET keep == AsCoded /\ mode = "codestore"       \* as coded: a creation that cannot pay the code deposit is not reverted
          st == IF keep THEN Obs ELSE Undo(Obs, journal, Top.jidx)
      IN /\ stor' = st.stor /\ bal' = st.bal /\ live' = st.live /\ logs' = st.logs /\ tstore' = st.tstore
